@@ -19,14 +19,16 @@ RULE = ('Generated panels with 1-6 admitted geos (quick) / up to 8 (thorough), a
         'the brute-force feasible set: enough designs, all distinct and feasible, non-increasing order, reported '
         'scores equal oracle scores, no feasible non-omittable design outside the result scores strictly higher than '
         'the worst returned one (omittable per the statement: treatment group, or an admissible sub-group, with '
-        'optimistic budget outside the range). Non-trivial: |feasible| > k, or pruning applies, or a tie at the '
+        'optimistic budget outside the range; a sub-group failing the share range is not admissible). A constructed '
+        'class has geos moving in opposite directions so that a super-group needs less budget than its over-budget, '
+        'share-inadmissible sub-group. Non-trivial: |feasible| > k, or pruning applies, or a tie at the '
         'boundary; distinct by input description.')
 ASSUMPTIONS = ['the admitted set is taken as observed through geos_within_constraints (documented pre-selection, checked in C01)',
                'designs whose feasibility or discrete score entries are within 1e-9 of flipping are neither demanded nor forbidden',
                'scoring of brute-force designs uses a pristine second copy of the diagnostics code (formula anchored by C05/C06)']
 EXHAUSTIVE = {'quick': False, 'thorough': False}
-MINIMA = {'quick': {'rounding_window_cases': 12, 'prior_call_cases': 60, 'shared_data_searches': 40, 'compared': 200, 'brute_designs': 3000, 'distinct_nontrivial': 80, 'cases_with_pruning': 8},
-          'thorough': {'rounding_window_cases': 120, 'prior_call_cases': 500, 'shared_data_searches': 400, 'compared': 2500, 'brute_designs': 200000, 'distinct_nontrivial': 1000, 'cases_with_pruning': 100}}
+MINIMA = {'quick': {'prune_trap_cases': 15, 'rounding_window_cases': 12, 'prior_call_cases': 60, 'shared_data_searches': 40, 'compared': 200, 'brute_designs': 3000, 'distinct_nontrivial': 80, 'cases_with_pruning': 8},
+          'thorough': {'prune_trap_cases': 150, 'rounding_window_cases': 120, 'prior_call_cases': 500, 'shared_data_searches': 400, 'compared': 2500, 'brute_designs': 200000, 'distinct_nontrivial': 1000, 'cases_with_pruning': 100}}
 N = {'quick': 640, 'thorough': 4800}
 CASE_TIMEOUT = {'quick': 300, 'thorough': 1200}
 
@@ -60,6 +62,69 @@ def degenerate_pair_exists(truth, admitted):
   return False
 
 
+def prune_trap_case(r, g):
+  """A panel where a LARGER treatment group needs LESS budget than one of its sub-groups (geos moving in opposite
+  directions), the sub-group P = {a, b} being over budget but below the lower share bound (so not an admissible
+  treatment group), the super-group S = {a, b, a', b'} in budget and within the share range: designs on S are
+  feasible and may not be omitted."""
+  import numpy as np
+  from mmv import gen
+  G = r.choice([5, 6, 6])
+  case = sl.make_case(r, g, G, cls='continuous', allow=('size',), elig_mode=r.choice(['none', 'ctx', 'ctx']), elig_extra='none',
+                      n_dates=r.randrange(20, 70))
+  panel = case['panel']
+  D = len(panel['dates'])
+  f = g.standard_normal(D)
+  f2 = g.standard_normal(D)
+  unit = 10.0 ** r.randrange(-2, 5)
+  amp = [r.uniform(0.8, 1.2) for _ in range(4)]
+  vals = np.zeros((G, D))
+  for i in range(G):
+    level = r.uniform(80, 160)
+    noise = 0.05 * g.standard_normal(D)
+    if i < 2:
+      vals[i] = level + 5 * amp[i] * f + noise
+    elif i < 4:
+      vals[i] = level - 5 * amp[i] * f + noise
+    else:
+      vals[i] = level + 4 * f2 + 2.0 * g.standard_normal(D) + (1.5 * f if i == 4 else 0)
+  order = list(range(G))
+  r.shuffle(order)                         # position of the trap geos in the id order is random
+  panel['values'] = (vals * unit)[order]
+  panel['present'] = np.ones((G, D), dtype=bool)
+  panel['dups'] = None
+  panel['features'] = list(panel.get('features') or []) + ['prune-trap']
+  case['frame'] = gen.panel_frame(panel, r, shuffle=True)
+  ids = [str(i) for i in panel['ids']]
+  pos = {k: order.index(k) for k in range(G)}
+  P = [ids[pos[0]], ids[pos[1]]]
+  S = P + [ids[pos[2]], ids[pos[3]]]
+  kw = {k: v for k, v in case['params'].items() if k not in ('treatment_geos_range', 'control_geos_range', 'geo_ratio_tolerance',
+                                                             'volume_ratio_tolerance', 'budget_range', 'n_geos_max',
+                                                             'treatment_share_range', 'min_corr')}
+  case['params'] = kw
+  case['preset_geo_index'] = False
+  case['prior_long_window'] = False
+  truth = sl.Truth(case)
+  if truth.iroas <= 0:
+    return None
+  singles = max(truth.opt_impact([gid]) for gid in truth.ids)
+  iS, iP = truth.opt_impact(S), truth.opt_impact(P)
+  floor = max(singles, iS)
+  if not iP > 1.1 * floor:
+    return None
+  bhi = (floor + r.choice([0.3, 0.5, 0.8]) * (iP - floor)) / truth.iroas
+  sP, sS = truth.share_of(P), truth.share_of(S)
+  lo = sP + r.choice([0.3, 0.5, 0.8]) * (sS - sP)
+  hi = min(0.97, sS * 1.05)
+  if not (sP < lo < sS < hi and max(truth.share.values()) < hi):
+    return None
+  kw['budget_range'] = (0.0, bhi)
+  kw['treatment_share_range'] = (lo, hi)
+  kw['n_designs'] = r.choice([1, 3, 50, 100000, 100000])
+  return case
+
+
 def run_case(spec):
   r, g = util.rngs(PROP, spec['seed'], spec['idx'])
   tier = spec['tier']
@@ -73,8 +138,13 @@ def run_case(spec):
   if cls is None and spec['idx'] % 17 == 3:
     cls = 'near_twins'         # a pair correlated above rho_max
   case = sl.make_case(r, g, G, focus=focus, cls=cls)
-  truth = sl.Truth(case)
   counters = collections.Counter()
+  if spec['idx'] % 16 == 7:
+    trap = prune_trap_case(r, g)
+    if trap is not None:
+      case, G, focus, cls = trap, len(trap['panel']['ids']), 'trap', 'trap'
+      counters['prune_trap_cases'] += 1
+  truth = sl.Truth(case)
   violations = []
   if cls == 'marginal':
     case['params']['n_designs'] = r.choice([5, 10, 20, 50])
